@@ -10,6 +10,11 @@
 (*   reads        <<[path, n]>>: how often the reader was asked for a path *)
 (*   twins        <<[kind, class, errkind]>>: compile result of each       *)
 (*                negative twin, in the order the specification lists them *)
+(* UNIVERSE = "disk": the records are configurations of the disk universe  *)
+(* (d.disk), each compiled from files on disk once per spelling of the     *)
+(* main file (fields spelling, cwd, arg; no twins): every configuration    *)
+(* must occur under all Spellings, with the (cwd, arg) the specification   *)
+(* gives; the verdict is the same Whys as for the in-memory run.           *)
 (* UNIVERSE = "cross": the records are exactly UniverseIds(NV, SEED),    *)
 (* each once (asserted: a tool error otherwise); "part": some of them.     *)
 (* Record k is validated independently.  A record that contradicts the     *)
@@ -33,6 +38,9 @@ NV == IF "NV" \in DOMAIN IOEnv THEN atoi(IOEnv.NV) ELSE 1          \* variants p
 Seed == IF "SEED" \in DOMAIN IOEnv THEN atoi(IOEnv.SEED) ELSE 1
 
 RecIds == {<<Rec[j].p, Rec[j].m, Rec[j].v>> : j \in 1..N}
+ASSUME Universe = "disk" =>
+    /\ Assert(Cardinality({<<Rec[j].p, Rec[j].m, Rec[j].v, Rec[j].spelling>> : j \in 1..N}) = N, <<"duplicate disk records", N>>)
+    /\ Assert(N = Len(Spellings) * Cardinality(RecIds), <<"a configuration is not recorded under every spelling", N, Cardinality(RecIds)>>)
 ASSUME Universe = "cross" =>
     /\ Assert(Cardinality(RecIds) = N, <<"duplicate records", N, Cardinality(RecIds)>>)
     /\ Assert(RecIds = UniverseIds(NV, Seed), <<"the trace does not cover the universe", N, Cardinality(UniverseIds(NV, Seed))>>)
@@ -40,8 +48,12 @@ ASSUME Universe = "cross" =>
 WellFormed(j, c) ==
     LET r == Rec[j] IN
     /\ Assert(r.lines = [q \in DOMAIN c.files |-> c.files[q].lines], <<"import lines differ from the derived configuration", j>>)
-    /\ Assert(Len(r.twins) = Len(c.twins) /\ \A q \in DOMAIN r.twins : r.twins[q].kind = c.twins[q].kind,
-              <<"twins differ from the derived configuration", j>>)
+    /\ IF Universe = "disk"
+       THEN /\ Assert(c.disk /\ r.twins = <<>>, <<"record outside the disk universe", j>>)
+            /\ Assert(r.spelling \in Range(Spellings) /\ r.cwd = SpellingOf(r.spelling).cwd /\ r.arg = SpellingOf(r.spelling).arg,
+                      <<"main file not spelled as the specification says", j>>)
+       ELSE Assert(Len(r.twins) = Len(c.twins) /\ \A q \in DOMAIN r.twins : r.twins[q].kind = c.twins[q].kind,
+                   <<"twins differ from the derived configuration", j>>)
     /\ Assert(r.class \in {"ok", "err", "panic"} /\ \A q \in DOMAIN r.twins : r.twins[q].class \in {"ok", "err", "panic"},
               <<"malformed observation", j>>)
     \* a twin must be rejected because a name is not visible, never because its text is not Sylt
@@ -71,5 +83,6 @@ TraceInv ==
     /\ (st = "run" /\ Universe # "cross") => ConfigOK(d)
     /\ st = "ok" => /\ Rec[k].class = "ok" /\ Rec[k].prints = Expected[d.p].prints /\ Rec[k].status = "done"
                     /\ \A f \in Range(d.load) : ReadCount(Rec[k], f) = 1
+                    /\ \A f \in Range(Tree) \ Range(d.load) : ReadCount(Rec[k], f) = 0
                     /\ \A q \in DOMAIN Rec[k].twins : Rec[k].twins[q].class = "err"
 =============================================================================
